@@ -13,6 +13,7 @@ import (
 	"sort"
 	"strconv"
 	"strings"
+	"sync"
 	"sync/atomic"
 	"testing"
 	"time"
@@ -39,12 +40,28 @@ func (e *vEntry) retrieve() (*Retrieved, error) {
 type vCalls struct {
 	n      atomic.Int64
 	budget int64
+	mu     sync.Mutex
+	seen   map[string]bool
+	uris   []string // distinct reference URIs retrieved, in first-call order (reference schemes only)
+}
+
+func (c *vCalls) record(uri string) {
+	c.mu.Lock()
+	defer c.mu.Unlock()
+	if c.seen == nil {
+		c.seen = map[string]bool{}
+	}
+	if !c.seen[uri] && len(c.uris) < 200 {
+		c.seen[uri] = true
+		c.uris = append(c.uris, uri)
+	}
 }
 
 type vProv struct {
 	scheme string
 	tab    map[string]*vEntry
 	calls  *vCalls
+	record bool // a reference scheme: its calls are reported as `tr retrieved`
 	inline bool // the location IS the YAML text (like the yaml provider: --config=yaml:… / --set)
 }
 
@@ -56,6 +73,9 @@ func (p *vProv) Retrieve(ctx context.Context, uri string, _ WatcherFunc) (*Retri
 		return nil, errors.New("verif-watchdog: provider call budget exceeded")
 	}
 	name := uri[len(p.scheme)+1:]
+	if p.calls != nil && p.record {
+		p.calls.record(uri)
+	}
 	if p.inline {
 		return NewRetrievedFromYAML([]byte(name))
 	}
@@ -245,9 +265,17 @@ type vCase struct {
 	tokOnly       bool
 	kind          string
 	loc           []int // location id per entry of srcs (nil: all distinct)
+	wantExact     []vWantX        // top-level keys whose value must be exactly the later source's (plain) value
+	dead          map[string]bool // reference URIs that occur only in values a later source replaces
+	mustSucceed   bool            // every reference that survives the merge is resolvable
 	wantc         []vWantC
 	wants         []vWant        // whole-value references whose original text every string-kind target must show
 	inline        map[int]string // entry index -> YAML text that IS the location ("vyaml:<text>"); srcs[i] is its parsed form
+}
+
+type vWantX struct {
+	key  string
+	want any
 }
 
 type vWantC struct {
@@ -511,7 +539,7 @@ func (c *vCase) run(out *vOut, idx int) (stuck bool) {
 	calls := &vCalls{budget: int64(vEnvInt("VERIF_C12_CALL_BUDGET", 400000))}
 	factories := []ProviderFactory{}
 	for _, s := range vSchemes {
-		p := &vProv{scheme: s, tab: c.provs[s], calls: calls}
+		p := &vProv{scheme: s, tab: c.provs[s], calls: calls, record: true}
 		factories = append(factories, NewProviderFactory(func(ProviderSettings) Provider { return p }))
 	}
 	// c.srcs is the URI list AS GIVEN to the resolver; c.loc[i] is the location of entry i, so the same location may
@@ -600,7 +628,25 @@ func (c *vCase) run(out *vOut, idx int) (stuck bool) {
 	if c.tokOnly {
 		tokOnly = 1
 	}
-	out.Linef("op resolve hint=%s tokonly=%d", hint, tokOnly)
+	calls.mu.Lock()
+	retrieved := append([]string{}, calls.uris...)
+	calls.mu.Unlock()
+	for _, w := range c.wantExact {
+		out.Linef("op wantexact %s %s", vHex(w.key), vEnc(w.want))
+	}
+	leaf := 0
+	if c.kind == "override" {
+		leaf = 1
+	}
+	out.Linef("op resolve hint=%s tokonly=%d leaf=%d", hint, tokOnly, leaf)
+	for _, u := range retrieved {
+		k := strings.IndexByte(u, ':')
+		out.Linef("tr retrieved %s %s", vHexS(u[:k]), vHex(u[k+1:]))
+		// direct oracle: a reference that a later source replaced must not be looked up at all
+		if c.dead[u] {
+			out.Linef("viol sig=C12/merge/overridden-reference-still-looked-up retrieved=%s", vHexS(u))
+		}
+	}
 	if panicked != nil {
 		out.Linef("obs res panic")
 		out.Linef("viol sig=C12/resolve/panic %s", vHexS(fmt.Sprint(panicked)))
@@ -623,6 +669,9 @@ func (c *vCase) run(out *vOut, idx int) (stuck bool) {
 	out.Linef("stat sources %d", len(c.srcs))
 	if err != nil {
 		out.Linef("obs res err %s", hint)
+		if c.mustSucceed {
+			out.Linef("viol sig=C12/merge/overridden-reference-still-looked-up resolve-failed class=%s", hint)
+		}
 		// direct oracle: every top-level location of this harness exists and its provider never fails, so Resolve must
 		// retrieve it — also when the location text itself contains '$' (inline YAML with references, escapes, lone $):
 		// '$' is only an error inside a REFERENCE name
@@ -654,6 +703,11 @@ func (c *vCase) run(out *vOut, idx int) (stuck bool) {
 	out.Linef("obs res ok %s", vEnc(raw))
 	strmap := conf.ToStringMap()
 	out.Linef("obs strmap %s", vEnc(strmap))
+	for _, w := range c.wantExact {
+		if vEnc(strmap[w.key]) != vEnc(w.want) {
+			out.Linef("viol sig=C12/merge/overridden-reference-leaks-into-result key=%s want=%s got=%s", vHexS(w.key), vEnc(w.want), vEnc(strmap[w.key]))
+		}
+	}
 	out.Linef("stat ok 1")
 	top := make([]string, 0, len(raw))
 	for k := range raw {
@@ -1339,6 +1393,31 @@ func vCorpus() []*vCase {
 		c.setYAML("env", "M", "{a: \"${env:X}\", b: [\"${env:X}\", {c: \"${env:X}\"}], n: 1}")
 		c.setYAML("env", "X", "123")
 	})
+	// merge FIRST, then expand: (a) a provider MAP (no string representation) under a key that a later source overrides with
+	// a map; (b) an unresolvable reference that a later source replaces
+	ovr := func(firstVal string, override any, setup func(c *vCase)) {
+		c := vNewCase()
+		c.kind = "override"
+		c.setYAML("env", "X", "foo")
+		if setup != nil {
+			setup(c)
+		}
+		c.srcs = []any{map[string]any{"k0": firstVal, "k2": "keep ${env:X}"}, map[string]any{"k0": override}}
+		c.wantExact = []vWantX{{"k0", override}}
+		c.mustSucceed = true
+		c.dead = map[string]bool{}
+		if i := strings.Index(firstVal, "${"); i >= 0 {
+			if j := strings.IndexByte(firstVal[i:], '}'); j > 0 && !strings.ContainsAny(firstVal[i+2:i+j], "${") {
+				c.dead[firstVal[i+2:i+j]] = true
+			}
+		}
+		cs = append(cs, c)
+	}
+	ovr("${env:PM}", map[string]any{"o": 1}, func(c *vCase) { c.setRaw("env", "PM", map[string]any{"leak": 1, "o": 0}) })
+	ovr("${zz:A}", 1, nil)
+	ovr("${env:MISSING}", "v", nil)
+	ovr("${env:CYC}", []any{1}, func(c *vCase) { c.setYAML("env", "CYC", "${env:CYC}") })
+	ovr("${env:a$b}", map[string]any{}, nil)
 	return cs
 }
 
@@ -1547,12 +1626,118 @@ func vGenTyped(c *vCase, rnd *rand.Rand) {
 	c.srcs = []any{m}
 }
 
+// vGenOverride: 2-4 sources; the first holds references under k0 (to a provider that returns a MAP, with or without string
+// representation), k1 (an UNRESOLVABLE reference: unknown scheme, failing provider, cycle, $ in the name, invalid uri,
+// whole or embedded) and n::k (nested); a later source replaces these keys (map / scalar / list / string, or the whole
+// parent) with plain values. The result must hold exactly the overrides, Resolve must succeed, and the replaced
+// references must never be retrieved. k2/k3 keep references that survive.
+func vGenOverride(c *vCase, rnd *rand.Rand) {
+	c.dead = map[string]bool{}
+	c.mustSucceed = true
+	c.setYAML("env", "X", "foo")
+	c.setYAML("env", "Y", "[1, \"${env:X}\"]")
+	if rnd.IntN(2) == 0 {
+		c.setRaw("env", "PM", map[string]any{"leak": 1, "o": 0, "deep": map[string]any{"l": []any{"a"}}, "r": "${env:X}"})
+	} else {
+		c.setYAML("env", "PM", "{leak: 1, o: 0, deep: {l: [a]}}")
+	}
+	c.setYAML("env", "CYC", "${env:CYC}")
+	c.setYAML("env", "CY2", "c-${env:CY2}")
+	bad := []string{"${zz:A}", "${env:MISSING}", "${env:CYC}", "${env:a$b}", "${a:x}", "x ${env:MISSING} y", "${env:CY2}",
+		"pre-${file:NOPE}", "${env:MISSING}${env:X}"}
+	plain := func() any {
+		switch rnd.IntN(6) {
+		case 0:
+			return map[string]any{"o": 1, "p": "x"}
+		case 1:
+			return map[string]any{}
+		case 2:
+			return []any{"a", 2}
+		case 3:
+			return "plain text"
+		case 4:
+			return rnd.IntN(100)
+		}
+		return nil
+	}
+	markDead := func(ref string) {
+		// every complete plain reference of the overridden value
+		for i := 0; i+1 < len(ref); i++ {
+			if ref[i] == '$' && ref[i+1] == '{' {
+				if j := strings.IndexByte(ref[i:], '}'); j > 0 {
+					body := ref[i+2 : i+j]
+					if strings.Contains(body, ":") && !strings.ContainsAny(body, "${") {
+						c.dead[body] = true
+					}
+				}
+			}
+		}
+	}
+	first := map[string]any{"k2": "keep ${env:X}", "k3": "${env:Y}"}
+	last := map[string]any{}
+	// (a) a provider MAP under a key that a later source overrides
+	first["k0"] = "${env:PM}"
+	markDead("${env:PM}")
+	ov0 := plain()
+	if rnd.IntN(2) == 0 {
+		ov0 = map[string]any{"o": 1, "p": "x"}
+	}
+	last["k0"] = ov0
+	c.wantExact = append(c.wantExact, vWantX{"k0", ov0})
+	// (b) an unresolvable reference under a key that a later source overrides
+	b := bad[rnd.IntN(len(bad))]
+	ov1 := plain()
+	if rnd.IntN(3) == 0 {
+		first["k1"] = []any{"lit", b}
+	} else if rnd.IntN(3) == 0 {
+		first["k1"] = map[string]any{"in": b, "z": 1}
+		if _, isMap := ov1.(map[string]any); isMap {
+			ov1 = "scalar over map" // a map override would MERGE with the earlier map and keep the bad reference alive
+		}
+	} else {
+		first["k1"] = b
+	}
+	markDead(b)
+	last["k1"] = ov1
+	c.wantExact = append(c.wantExact, vWantX{"k1", ov1})
+	// nested: n::k is replaced, or the whole parent n
+	if rnd.IntN(2) == 0 {
+		b2 := bad[rnd.IntN(len(bad))]
+		first["n"] = map[string]any{"k": b2, "keep": "${env:X}"}
+		markDead(b2)
+		if rnd.IntN(2) == 0 {
+			last["n"] = map[string]any{"k": "v"}
+			c.wantExact = append(c.wantExact, vWantX{"n", map[string]any{"k": "v", "keep": "foo"}})
+		} else {
+			last["n"] = 5
+			c.wantExact = append(c.wantExact, vWantX{"n", 5})
+		}
+	}
+	delete(c.dead, "env:X")
+	delete(c.dead, "env:Y")
+	c.srcs = []any{first}
+	for i := rnd.IntN(3); i > 0; i-- {
+		c.srcs = append(c.srcs, map[string]any{"m" + strconv.Itoa(i): rnd.IntN(9), "k2": "keep ${env:X}"})
+	}
+	c.srcs = append(c.srcs, last)
+	if rnd.IntN(4) == 0 {
+		// the overriding source once more at the end (a repeated location), or an inline one
+		c.srcs = append(c.srcs, map[string]any{"k3": "${env:Y}"})
+	}
+	if rnd.IntN(3) == 0 {
+		vInlineLoc(c, len(c.srcs)-1)
+	}
+}
+
 func vGenCase(idx int, rnd *rand.Rand) *vCase {
 	c := vNewCase()
 	if rnd.IntN(2) == 0 {
 		c.defaultScheme = "env"
 	}
-	switch idx % 6 {
+	switch idx % 7 {
+	case 6: // merge FIRST, then expand: later sources override keys whose earlier value is a reference
+		c.kind = "override"
+		vGenOverride(c, rnd)
 	case 5: // whole-value references to provider texts of every YAML kind, decoded into string-kind targets
 		c.kind = "typed"
 		vGenTyped(c, rnd)
